@@ -166,7 +166,8 @@ _SAFE_BUILTINS = {
     'dict': dict, 'list': list, 'tuple': tuple, 'set': set, 'frozenset': frozenset, 'sorted': sorted, 'len': len,
     'zip': zip, 'enumerate': enumerate, 'range': range, 'min': min, 'max': max, 'str': str, 'int': int, 'bool': bool,
     'any': any, 'all': all, 'reversed': reversed, 'sum': sum, 'object': object, 'repr': repr, 'chr': chr, 'ord': ord,
-    'abs': abs, 'map': map, 'filter': filter,
+    'abs': abs, 'map': map, 'filter': filter, 'type': type, 'float': float, 'complex': complex, 'bytes': bytes,
+    'isinstance': isinstance, 'issubclass': issubclass, 'getattr': getattr, 'hasattr': hasattr,
 }
 
 _PURE_METHODS = {
